@@ -18,13 +18,15 @@ var lifecycleAlphabet = func() []letter {
 			out = append(out, l)
 		}
 	}
+	// Disconnect on a connection whose Close() reports an error: the connection is gone all the same
+	out = append(out, letter{"Dfail", func(r *rand.Rand, cf ccfg) cop { return cop{kind: "D", closeErr: true, wfault: -1} }})
 	return out
 }()
 
 // C14: TCP client lifecycle — histories (sequential, exhaustive) and interleavings.
 func C14(c *core.Ctx) {
 	// (a) every call sequence up to a bound, with factories that fail on chosen calls
-	historySweep(c, "c14", lifecycleAlphabet, c.N(4, 5), c.N(200, 5000), c.N(8, 10))
+	historySweep(c, "c14", lifecycleAlphabet, c.N(3, 5), c.N(1500, 8000), c.N(8, 10))
 	// (b) concurrent mixes under the deterministic scheduler (and the race detector)
 	type conf struct {
 		name   string
